@@ -942,11 +942,12 @@ Fixpoint ss_adjust_loop (odrtu ndrtu : f64) (bas : list ss_balloc) (owps : list 
           '(ds, w', cp', mtc', mb', f) <- ss_adjust_loop odrtu ndrtu tl otl w cp mtc mb ;; Some (d :: ds, w', cp', mtc', mb', f)
         else if neg then
           '(w1, cp1) <- ss_move_from_cp w cp v ;;
-          (* unchecked: ChallengePoolIntegralValue -= value; MovedBack += value.  The flag reports
-             a wrap-around of the blobber's value (defect F-12b). *)
-          let d' := ba_with_cpiv d (ss_wrap (ba_cpiv d - v)) in
+          (* ChallengePoolIntegralValue = MinusCoin(value, change) (checked since the fix of
+             adjustChallengePool); MovedBack += change stays unchecked *)
+          v' <- ss_minus_coin (ba_cpiv d) v ;;
+          let d' := ba_with_cpiv d v' in
           '(ds, w', cp', mtc', mb', f) <- ss_adjust_loop odrtu ndrtu tl otl w1 cp1 mtc (ss_wrap (mb + v)) ;;
-          Some (d' :: ds, w', cp', mtc', mb', f || (ba_cpiv d <? v))
+          Some (d' :: ds, w', cp', mtc', mb', f)
         else
           '(w1, cp1) <- ss_move_to_cp w cp v ;;
           let d' := ba_with_cpiv d (ss_wrap (ba_cpiv d + v)) in
@@ -955,8 +956,8 @@ Fixpoint ss_adjust_loop (odrtu ndrtu : f64) (bas : list ss_balloc) (owps : list 
   | _ :: _, [] => None
   end.
 
-(* extendAllocation step 1: new size, capped current terms, offers *)
-Fixpoint ss_extend_terms (c : ss_conf) (req_size diff size : Z) (bas : list ss_balloc) (bls : list ss_blobber)
+(* extendAllocation step 1: every blobber allocation grows by diff, capped current terms, offers *)
+Fixpoint ss_extend_terms (c : ss_conf) (req_size diff : Z) (bas : list ss_balloc) (bls : list ss_blobber)
   : option (list ss_balloc * list ss_blobber) :=
   match bas with
   | [] => Some ([], bls)
@@ -969,22 +970,20 @@ Fixpoint ss_extend_terms (c : ss_conf) (req_size diff size : Z) (bas : list ss_b
                                     (ss_i64 (ss_staked_capacity b (bl_wp b) - bl_allocd b - diff) <? 0))) ;;
                Some (bl_with_sizes b (bl_allocd b + diff) (bl_saved b))
              else Some b) ;;
-      let d' := ba_with_terms d size (Z.min (bl_wp b) (cf_max_wp c)) (Z.min (bl_rp b) (cf_max_rp c)) in
+      let d' := ba_with_terms d (ba_size d + diff) (Z.min (bl_wp b) (cf_max_wp c)) (Z.min (bl_rp b) (cf_max_rp c)) in
       let oldo := ss_offer d in
       let newo := ss_offer d' in
       b2 <- (if oldo <? newo then ss_add_offer b1 (newo - oldo)
              else if newo <? oldo then ss_reduce_offer b1 (oldo - newo) else Some b1) ;;
-      '(ds, bls') <- ss_extend_terms c req_size diff size tl (ss_set_blobber b2 bls) ;;
+      '(ds, bls') <- ss_extend_terms c req_size diff tl (ss_set_blobber b2 bls) ;;
       Some (d' :: ds, bls')
   end.
 
 Definition ss_extend (c : ss_conf) (s : ss_state) (now : Z) (a : ss_alloc) (req_size : Z) : option (ss_state * ss_alloc * bool) :=
-  d0 <- hd_error (al_bas a) ;;
   let diff := ss_bsize req_size (al_data a) in
-  let size := ba_size d0 + diff in
   let orig_rem := al_exp a - now in
   let new_rem := ss_tu_sec c in
-  '(bas, bls) <- ss_extend_terms c req_size diff size (al_bas a) (st_blobbers s) ;;
+  '(bas, bls) <- ss_extend_terms c req_size diff (al_bas a) (st_blobbers s) ;;
   let a1 := al_with_bas (al_with_head a (al_owner a) (now + ss_tu_sec c) (al_size a + req_size) (al_parity a) (al_tpe a)) bas in
   let s1 := st_with_blobbers s bls in
   if (al_used a1 =? 0) then Some (s1, a1, false)
@@ -1002,8 +1001,9 @@ Definition ss_required_lock (c : ss_conf) (a : ss_alloc) (cpbal : Z) (extend : b
   let total := ss_wrap (al_wpool a + cpbal) in
   Some (if total <? cost then cost - total else 0).
 
-(* updateAllocationRequestInternal; the boolean reports whether the accounting defect of
-   adjustChallengePool (unchecked subtraction) fired during this execution *)
+(* updateAllocationRequestInternal; the boolean reports a wrap-around of the unchecked
+   `ChallengePoolIntegralValue += change` in adjustChallengePool (proved impossible on states
+   satisfying the C12 invariant) *)
 Definition ss_update_f (c : ss_conf) (s : ss_state) (now round sender alloc value size : Z) (extend0 set_tpe : bool)
            (add remove : option Z) (new_owner : option (Z * bool)) : option (ss_state * bool) :=
   let extend := extend0 || (0 <? size) in
@@ -1090,6 +1090,8 @@ Definition ss_read (c : ss_conf) (s : ss_state) (client blobber alloc ts ctr : Z
   d <- ss_find_ba blobber (al_bas a) ;;
   b <- ss_find_blobber blobber (st_blobbers s) ;;
   let reads := ctr - match last with Some n => n | None => 0 end in
+  (* the delta times CHUNK_SIZE must fit int64 (checked since the fix of commitBlobberRead) *)
+  _ <- ss_guard ((0 <=? reads) && (reads <=? (2 ^ 63 - 1) / ss_CHUNK)) ;;
   let sz := ss_size_gb (ss_i64 (reads * ss_CHUNK)) in
   let value := f64_to_u64 (f64_mul (f64_of_Z (ba_rp d)) sz) in
   let rp := ss_assoc0 client (st_rpools s) in
@@ -1108,25 +1110,22 @@ Definition ss_kill (c : ss_conf) (s : ss_state) (sender blobber : Z) : option ss
   b <- ss_find_blobber blobber (st_blobbers s) ;;
   _ <- ss_guard (sender =? cf_owner c) ;;
   if bl_killed b || bl_shut b then
-    (* "refresh": total offers reset; the transaction succeeds *)
-    Some (st_with_blobbers s (ss_set_blobber (bl_with_offers b 0) (st_blobbers s)))
+    (* already killed / shut down: the transaction succeeds and changes nothing *)
+    Some s
   else
     b1 <- ss_sp_kill b (cf_kill_slash c) ;;
     Some (st_with_blobbers s (ss_set_blobber (bl_with_node b1 (bl_cap b1) (bl_allocd b1) (bl_saved b1) true (bl_shut b1)
                                                            (bl_notavail b1) (bl_wp b1) (bl_rp b1)) (st_blobbers s))).
 
-(* provider.ShutDown saves the stake pool under the caller's id, so the blobber's own stake
-   pool keeps its state unless the caller is the blobber itself *)
+(* provider.ShutDown (after the fix: authorisation first, stake pool saved under the provider's id) *)
 Definition ss_shutdown (c : ss_conf) (s : ss_state) (sender blobber : Z) : option ss_state :=
   b <- ss_find_blobber blobber (st_blobbers s) ;;
-  if bl_killed b || bl_shut b then
-    Some (st_with_blobbers s (ss_set_blobber (bl_with_offers b 0) (st_blobbers s)))
+  if bl_killed b || bl_shut b then Some s
   else
+    _ <- ss_guard ((sender =? cf_owner c) || (sender =? bl_wallet b)) ;;
     let half := f64_div (cf_kill_slash c) (f64_of_Z 2) in
     b1 <- ss_sp_kill b half ;;
-    _ <- ss_guard ((sender =? cf_owner c) || (sender =? bl_wallet b)) ;;
-    let bsp := if sender =? blobber then b1 else b in
-    Some (st_with_blobbers s (ss_set_blobber (bl_with_node bsp (bl_cap b) (bl_allocd b) (bl_saved b) (bl_killed b) true
+    Some (st_with_blobbers s (ss_set_blobber (bl_with_node b1 (bl_cap b) (bl_allocd b) (bl_saved b) (bl_killed b) true
                                                            (bl_notavail b) (bl_wp b) (bl_rp b)) (st_blobbers s))).
 
 (* updateBlobberSettings / updateBlobber: terms, capacity, availability *)
@@ -1227,7 +1226,7 @@ Definition ss_apply (c : ss_conf) (s : ss_state) (now round : Z) (o : ss_op) : o
       ss_free_alloc c s now id sender assigner recipient coin nonce sig_ok bl
   end.
 
-(* did the accounting defect fire while this transaction executed? *)
+(* did the unchecked addition of adjustChallengePool wrap while this transaction executed? *)
 Definition ss_fired (c : ss_conf) (s : ss_state) (now round : Z) (o : ss_op) : bool :=
   match o with
   | OpUpdate sender alloc value size ext tpe add rem own =>
